@@ -178,6 +178,10 @@ pub fn gen_for(prop: &str, seed: u64) -> Scenario {
             }
         }
     }
+    if prop == "C15" || (matches!(prop, "C01" | "C02" | "C03" | "C11" | "C12" | "C13") && rng.chance(1, 7)) {
+        crate::afamily::asyncify(&mut sc, &mut rng);
+        return sc;
+    }
     if prop == "C13" {
         // lifecycle: removals / overwrites followed by another setup; worlds in which
         // everything already exists
@@ -265,14 +269,14 @@ fn random_strat(rng: &mut Rng, k: u64) -> StratSpec {
 
 /// Stages with at least two groups (top level or inside a hand-written-controller batch):
 /// (parent, heads of the groups)
-fn wide_stages(b: &Built) -> Vec<(Option<usize>, Vec<usize>)> {
+fn wide_stages(layout: &crate::build::Layout) -> Vec<(Option<usize>, Vec<usize>)> {
     let mut v = Vec::new();
-    for st in &b.layout.top {
+    for st in &layout.top {
         if st.len() >= 2 && st.iter().all(|g| !g.is_empty()) {
             v.push((None, st.iter().map(|g| g[0]).collect()));
         }
     }
-    for (p, l) in &b.layout.inner {
+    for (p, l) in &layout.inner {
         for st in l {
             if st.len() >= 2 && st.iter().all(|g| !g.is_empty()) {
                 v.push((Some(*p), st.iter().map(|g| g[0]).collect()));
@@ -283,8 +287,7 @@ fn wide_stages(b: &Built) -> Vec<(Option<usize>, Vec<usize>)> {
 }
 
 /// Which runs to make for one scenario.
-pub fn plan_runs(prop: &str, sc: &Scenario, b: &Built, thorough: bool, rng: &mut Rng) -> Vec<Planned> {
-    let infos = &b.ctx.infos;
+pub fn plan_runs(prop: &str, sc: &Scenario, infos: &[SysInfo], layout: &crate::build::Layout, thorough: bool, rng: &mut Rng) -> Vec<Planned> {
     let mut v: Vec<Planned> = Vec::new();
     let mode = if prop == "C05" { "cmp" } else { "run" };
     let mk = |sc: &Scenario, strat: StratSpec, rng: &mut Rng| Planned { sc: sc.clone(), mode, strat, rs: rng.next_u64() };
@@ -334,13 +337,18 @@ pub fn plan_runs(prop: &str, sc: &Scenario, b: &Built, thorough: bool, rng: &mut
         "C11" => {
             // rendezvous of all group heads of one wide stage; the pool has exactly as many
             // workers as the stage is wide (or a few more)
-            for (parent, heads) in wide_stages(b).iter() {
+            for (parent, heads) in wide_stages(layout).iter() {
                 let w = heads.len();
                 let mut s = sc.clone();
-                if !s.calls.iter().any(|c| matches!(c, Call::Dispatch | Call::DispatchPar)) {
+                if !s.asyncd && !s.calls.iter().any(|c| matches!(c, Call::Dispatch | Call::DispatchPar)) {
                     s.calls = vec![Call::Dispatch];
                 }
-                let calls: Vec<usize> = s.calls.iter().enumerate().filter(|(_, c)| matches!(c, Call::Dispatch | Call::DispatchPar)).map(|(i, _)| i).collect();
+                let calls: Vec<usize> = if s.asyncd {
+                    // directives of an async scenario are armed per dispatch operation
+                    (0..s.aops.iter().filter(|o| **o == AOp::Dispatch).count()).collect()
+                } else {
+                    s.calls.iter().enumerate().filter(|(_, c)| matches!(c, Call::Dispatch | Call::DispatchPar)).map(|(i, _)| i).collect()
+                };
                 s.faults.clear();
                 if let Some(p) = parent {
                     // every enclosing batch must run at least once for the heads to meet
@@ -370,7 +378,7 @@ pub fn plan_runs(prop: &str, sc: &Scenario, b: &Built, thorough: bool, rng: &mut
                     s.pool.supplied = None;
                     s.pool.machine = w + extra;
                 }
-                if rng.chance(1, 5) {
+                if !s.asyncd && rng.chance(1, 5) {
                     s.from_pool = Some(1);
                 }
                 let k = rng.below(4);
@@ -785,6 +793,10 @@ pub fn explore(prop: &str, seed: u64, thorough: bool, st: &mut Stats) -> Vec<Rep
     st.seeds += 1;
     let mut found: Vec<Replay> = Vec::new();
     let mut rng = Rng::sub(seed, 2);
+    if sc.asyncd {
+        explore_async(prop, seed, &sc, thorough, st, &mut rng, &mut found);
+        return found;
+    }
     let mut b = build(&sc, &BuildOpts::default());
     let lay_digest = fnv(b.layout.canonical().as_bytes());
     st.layouts.insert(lay_digest);
@@ -795,7 +807,8 @@ pub fn explore(prop: &str, seed: u64, thorough: bool, st: &mut Stats) -> Vec<Rep
     for v in eval_static(&b) {
         push_found(prop, &mut found, st, &v, || mk_replay(prop, seed, &sc, "static", &StratSpec::NoPreempt, 0, None, 0, &v));
     }
-    for p in plan_runs(prop, &sc, &b, thorough, &mut rng) {
+    let plan = plan_runs(prop, &sc, &b.ctx.infos, &b.layout, thorough, &mut rng);
+    for p in plan {
         let has_rdv = p.sc.faults.iter().any(|f| f.kind == FaultKind::Rendezvous);
         *CUR.lock().unwrap() = Some((serde_json::to_value(&p.sc).unwrap(), p.mode.to_string(), p.strat.clone(), p.rs, seed, has_rdv));
         // the pool is part of the built dispatcher: a variant with another pool gets its own
@@ -848,6 +861,58 @@ pub fn explore(prop: &str, seed: u64, thorough: bool, st: &mut Stats) -> Vec<Rep
     found
 }
 
+fn explore_async(prop: &str, seed: u64, sc: &Scenario, thorough: bool, st: &mut Stats, rng: &mut Rng, found: &mut Vec<Replay>) {
+    use crate::afamily::*;
+    let mut b = build_async(sc);
+    let lay_digest = fnv(b.layout.canonical().as_bytes());
+    st.layouts.insert(lay_digest);
+    Stats::bump(&mut st.probes, "async_scenarios", 1);
+    if st.samples.len() < 2 && !st.samples.iter().any(|s| s.get("async_ops").is_some()) {
+        st.samples.push(json!({"seed": seed, "async_ops": sc.aops, "executed_layout": b.layout.canonical(), "pool": sc.pool, "registration_sequence": sc.regs}));
+    }
+    let infos = b.ctx.infos.clone();
+    let plan = plan_runs(prop, sc, &infos, &b.layout.clone(), thorough, rng);
+    for p in plan {
+        let has_rdv = p.sc.faults.iter().any(|f| f.kind == FaultKind::Rendezvous);
+        *CUR.lock().unwrap() = Some((serde_json::to_value(&p.sc).unwrap(), "run".to_string(), p.strat.clone(), p.rs, seed, has_rdv));
+        let mut own;
+        let bref = if p.sc.pool != sc.pool {
+            own = build_async(&p.sc);
+            &mut own
+        } else {
+            &mut b
+        };
+        let o = eval_async_on(bref, &p.sc, &p.strat, p.rs, None);
+        st.runs += 1;
+        st.steps += o.steps;
+        st.switches += o.switches;
+        st.tasks += o.tasks;
+        Stats::bump(&mut st.strategies, strat_name(&p.strat), 1);
+        st.inters.insert(o.inter_digest);
+        st.overlap_pairs += o.overlap_pairs;
+        if o.overlap_pairs > 0 || o.blocked_ops > 0 {
+            st.nontrivial.insert(crate::res::mix(lay_digest, o.inter_digest));
+        }
+        Stats::bump(&mut st.faults, "caller_op_blocked_on_job_in_flight", o.blocked_ops);
+        for (op, r) in &o.ops {
+            Stats::bump(&mut st.extra, &format!("async_op_{:?}", op), 1);
+            match r {
+                Some(true) => Stats::bump(&mut st.probes, "running_returned_true", 1),
+                Some(false) => Stats::bump(&mut st.probes, "running_returned_false", 1),
+                None => {}
+            }
+        }
+        if let StratSpec::Hold(_) = p.strat {
+            Stats::bump(&mut st.faults, "hold_stall", 1);
+        }
+        for v in &o.violations {
+            push_found(prop, found, st, v, || mk_replay(prop, seed, &p.sc, "run", &p.strat, p.rs, Some(o.trace.clone()), o.digest, v));
+        }
+    }
+    *CUR.lock().unwrap() = None;
+    dispose_async(b);
+}
+
 #[derive(Serialize, Deserialize, Debug)]
 pub struct EvalOut {
     pub violations: Vec<Violation>,
@@ -859,6 +924,12 @@ pub struct EvalOut {
 /// Run exactly what a replay record describes (trace if present, else strategy + seed).
 pub fn eval_replay(r: &Replay) -> EvalOut {
     let sc: Scenario = serde_json::from_value(r.scenario.clone()).expect("scenario");
+    if sc.asyncd {
+        let mut b = crate::afamily::build_async(&sc);
+        let o = crate::afamily::eval_async_on(&mut b, &sc, &r.strategy, r.run_seed, r.trace.clone());
+        crate::afamily::dispose_async(b);
+        return EvalOut { violations: o.violations, digest: o.digest, trace: o.trace, steps: o.steps };
+    }
     let mut b = build(&sc, &BuildOpts::default());
     let mut vs = eval_static(&b);
     let mut digest = 0;
